@@ -5,3 +5,22 @@ Record xcase := { xc_sig : signature; xc_args : list string; xc_out : string }.
 Definition xcase_ok (c : xcase) : bool :=
   match sentence_of (xc_sig c) (xc_args c) with Sentence s => String.eqb s (xc_out c) | NotModelled => true end.
 Definition xcase_modelled (c : xcase) : bool := match sentence_of (xc_sig c) (xc_args c) with Sentence _ => true | NotModelled => false end.
+
+(* scope of C15_fact_sentence_closed_form_partial / C15_distinct_atoms_distinct_sentences_partial on the observed atoms, and the
+   closed form itself against the implementation's sentence *)
+Require Import Cnl2aspV.Asp.Print.
+Open Scope string_scope.
+Definition xcase_fact_scope (c : xcase) : bool :=
+  let sg := xc_sig c in
+  match sg_subjects sg, sg_verb sg, sg_objects sg with
+  | [], None, [] =>
+      let attrs := xe_all (parse_symbol (sg_entity sg) (xc_args c)) in
+      name_ok (on_name (xe_name (sg_entity sg))) && negb (match attrs with [] => true | _ => false end) &&
+      forallb (fun a => value_ok (x_value a)) attrs
+  | _, _, _ => false end.
+Definition xcase_closed_form_ok (c : xcase) : bool :=
+  if xcase_fact_scope c then
+    let e := sg_entity (xc_sig c) in
+    String.eqb (xc_out c) ("There is " ++ replace_underscore (on_name (xe_name e)) ++ " " ++
+                           fact_body (on_name (xe_name e)) (xe_all (parse_symbol e (xc_args c))) ++ ".")
+  else true.
